@@ -17,3 +17,105 @@ Qed.
 
 Lemma gen_sign_is_model (x : R) : IZR (gen_sign RO x) = signT RO x.
 Proof. unfold gen_sign, signT, zeroT. cbn [ltb ofZ RO]. destruct (Rltb x 0); reflexivity. Qed.
+
+(* ---- _extrapolate_information, regenerated once per None-pattern of its arguments (py2coq "static_kinds" + "monadic"),
+   is the model's extrapolate on that pattern: for every arithmetic and every PROJ oracle. *)
+From Coq Require Import List.
+From PR Require Import Proofs.C13_missing.
+
+Section GenExtrapolate.
+  Context {T : Type} (OP : ops T).
+  Variable pfwd pinv : T * T -> option (T * T).
+  Variable fac : cu -> T * T.
+  Variable geographic : bool.
+  Variable crs_units : cu.
+  Local Notation extrap := (extrapolate OP pfwd pinv fac geographic crs_units).
+  Local Notation convert := (convert_units OP pfwd pinv fac geographic crs_units).
+
+  (* the generated functions return bare values where the pattern says "not None" and tt where it says None *)
+  Definition full (r : res ((T * T * T * T) * (Z * Z) * (T * T))) :=
+    match r with Ok (e, s, d) => Ok (Some e, Some s, Some d) | Err => Err end.
+  Definition full_nores (r : res ((T * T * T * T) * (Z * Z) * unit)) : res (option (T * T * T * T) * option (Z * Z) * option (T * T)) :=
+    match r with Ok (e, s, _) => Ok (Some e, Some s, None) | Err => Err end.
+
+  Ltac conv_cases :=
+    match goal with
+    | |- context[convert None ?n ?u ?c] => rewrite (convert_none OP pfwd pinv fac geographic crs_units n u c)
+    | |- context[convert (@Some ?ty ?p) ?n ?u ?c] =>
+      let H := fresh in pose proof (convert_some OP pfwd pinv fac geographic crs_units p n u c) as H;
+      change (@Some (T * T * option utok) p) with (@Some ty p) in H; destruct H as [-> | [? ->]]
+    | |- context[validate2 OP None ?n] => change (validate2 OP None n) with (Ok n)
+    | |- context[validate4 OP None ?n] => change (validate4 OP None n) with (Ok n)
+    | |- context[validate_shape OP None ?n] => change (validate_shape OP None n) with (Ok n)
+    | |- context[validate2 OP (Some ?v) ?n] => destruct (validate2_cases OP (Some v) n) as [-> | ->]
+    | |- context[validate4 OP (Some ?v) ?n] => destruct (validate4_cases OP (Some v) n) as [-> | ->]
+    | |- context[validate_shape OP (Some ?v) ?n] => destruct (validate_shape_cases OP (Some v) n) as [-> | ->]
+    | |- context[round_shape_kw OP ?s ?r ?d] => destruct (round_shape_kw_cases OP s r d) as [[? ->] | ->]
+    end.
+  Ltac solve_gen :=
+    unfold extrapolate, conv_radius_c, conv_radius_n, conv_resolution_c, conv_resolution_n, conv1, validate2s, validate4s,
+      validate_shapes, full, full_nores; unfold param in *;
+    repeat (first [conv_cases | progress cbn [bind fst snd]]); try reflexivity.
+
+  Lemma gen_crs_is_model s c r units :
+    extrap None (Some s) (Some c) (Some r) None None units
+    = full_nores (gen_extrapolate_crs OP pfwd pinv fac geographic crs_units tt s c r tt tt units).
+  Proof. unfold gen_extrapolate_crs. destruct c, s. solve_gen. Qed.
+  Lemma gen_cds_is_model s c d units :
+    extrap None (Some s) (Some c) None (Some d) None units
+    = full (gen_extrapolate_cds OP pfwd pinv fac geographic crs_units tt s c tt d tt units).
+  Proof. unfold gen_extrapolate_cds. destruct c, s. solve_gen. Qed.
+  Lemma gen_uds_is_model s d ul units :
+    extrap None (Some s) None None (Some d) (Some ul) units
+    = full (gen_extrapolate_uds OP pfwd pinv fac geographic crs_units tt s tt tt d ul units).
+  Proof. unfold gen_extrapolate_uds. destruct ul, s. solve_gen. Qed.
+  Lemma gen_crd_is_model c r d units :
+    extrap None None (Some c) (Some r) (Some d) None units
+    = full (gen_extrapolate_crd OP pfwd pinv fac geographic crs_units tt tt c r d tt units).
+  Proof. unfold gen_extrapolate_crd. destruct c. solve_gen. Qed.
+  Lemma gen_ed_is_model e0 e1 e2 e3 d units :
+    extrap (Some (e0, e1, e2, e3)) None None None (Some d) None units
+    = full (gen_extrapolate_ed OP pfwd pinv fac geographic crs_units (e0, e1, e2, e3) tt tt tt d tt units).
+  Proof. unfold gen_extrapolate_ed. solve_gen. Qed.
+  Lemma gen_ed_c_is_model e0 e1 e2 e3 c d units :
+    extrap (Some (e0, e1, e2, e3)) None (Some c) None (Some d) None units
+    = full (gen_extrapolate_ed_c OP pfwd pinv fac geographic crs_units (e0, e1, e2, e3) tt c tt d tt units).
+  Proof. unfold gen_extrapolate_ed_c. solve_gen. Qed.
+  Lemma gen_ed_r_is_model e0 e1 e2 e3 r d units :
+    extrap (Some (e0, e1, e2, e3)) None None (Some r) (Some d) None units
+    = full (gen_extrapolate_ed_r OP pfwd pinv fac geographic crs_units (e0, e1, e2, e3) tt tt r d tt units).
+  Proof. unfold gen_extrapolate_ed_r. solve_gen. Qed.
+  Lemma gen_ed_u_is_model e0 e1 e2 e3 d ul units :
+    extrap (Some (e0, e1, e2, e3)) None None None (Some d) (Some ul) units
+    = full (gen_extrapolate_ed_u OP pfwd pinv fac geographic crs_units (e0, e1, e2, e3) tt tt tt d ul units).
+  Proof. unfold gen_extrapolate_ed_u. solve_gen. Qed.
+  Lemma gen_ucrs_is_model s c r ul units :
+    extrap None (Some s) (Some c) (Some r) None (Some ul) units
+    = full_nores (gen_extrapolate_ucrs OP pfwd pinv fac geographic crs_units tt s c r tt ul units).
+  Proof. unfold gen_extrapolate_ucrs. destruct c, ul, s. solve_gen. Qed.
+  Lemma gen_crds_is_model s c r d units :
+    extrap None (Some s) (Some c) (Some r) (Some d) None units
+    = full (gen_extrapolate_crds OP pfwd pinv fac geographic crs_units tt s c r d tt units).
+  Proof. unfold gen_extrapolate_crds. destruct c, s. solve_gen. Qed.
+  (* nothing to combine: a DynamicAreaDefinition will be made from what is there *)
+  Lemma gen_none_is_model units :
+    extrap None None None None None None units = Ok (None, None, None) /\
+    gen_extrapolate_none OP pfwd pinv fac geographic crs_units tt tt tt tt tt tt units = Ok (tt, tt, tt).
+  Proof. split; reflexivity. Qed.
+  Lemma gen_shape_only_is_model s units :
+    extrap None (Some s) None None None None units = Ok (None, Some s, None) /\
+    gen_extrapolate_s OP pfwd pinv fac geographic crs_units tt s tt tt tt tt units = Ok (tt, s, tt).
+  Proof. split; reflexivity. Qed.
+
+  (* _validate_variable and the None path of _convert_units, regenerated *)
+  Lemma gen_validate_none_is_model (n : T * T) : gen_validate_none OP tt n = validate2 OP None n.
+  Proof. reflexivity. Qed.
+  Lemma gen_validate_pair_is_model (v n : T * T) : gen_validate_pair OP v n = validate2 OP (Some v) n.
+  Proof. unfold gen_validate_pair, validate2. destruct (allclose2 OP v n); reflexivity. Qed.
+  Lemma gen_validate_quad_is_model (v n : T * T * T * T) : gen_validate_quad OP v n = validate4 OP (Some v) n.
+  Proof. unfold gen_validate_quad, validate4. destruct (allclose4 OP v n); reflexivity. Qed.
+  Lemma gen_validate_shape_is_model (v n : Z * Z) : gen_validate_shape OP v n = validate_shape OP (Some v) n.
+  Proof. unfold gen_validate_shape, validate_shape. destruct (allclose2 OP (zz2t OP v) (zz2t OP n)); reflexivity. Qed.
+  Lemma gen_convert_units_none_is_model name u c : convert None name u c = Ok None /\ gen_convert_units_none tt = tt.
+  Proof. split; reflexivity. Qed.
+End GenExtrapolate.
